@@ -210,7 +210,7 @@ DataConnect(s, t) ==
        THEN Upd(s, [r EXCEPT !.xd = @ + 1])                          \* refused: closed at once
      ELSE IF r.w.v # "" /\ r.w.st = "wait"
        THEN Upd(s, [r EXCEPT !.w.st = "run", !.w.sock = TRUE, !.w.had = TRUE, !.cdata = TRUE, !.din = <<>>, !.dineof = FALSE,
-                             !.w.dl = IF SockT > 0 /\ r.w.v \in {"stor", "appe"} THEN t + SockT ELSE 0])
+                             !.w.dl = IF SockT > 0 THEN t + SockT ELSE 0])
      ELSE Upd(s, [r EXCEPT !.dc = "parked", !.cdata = TRUE, !.din = <<>>, !.dineof = FALSE])
   /\ UNCHANGED <<tree, uused, used, pool, table, srv>>
 
@@ -279,7 +279,7 @@ Spawn(r, t) ==
   [NoW EXCEPT !.v = r.h.v, !.p = RPath(r), !.st = IF parked THEN "run" ELSE "wait",
               !.off = r.h.n,
               !.sock = parked, !.had = parked,
-              !.dl = IF parked THEN (IF SockT > 0 /\ r.h.v \in {"stor", "appe"} THEN t + SockT ELSE 0)
+              !.dl = IF parked THEN (IF SockT > 0 THEN t + SockT ELSE 0)
                      ELSE (IF WaitData > 0 THEN t + WaitData ELSE 0)]
 
 Out(rep, r, uu, us) == [rep |-> rep, r |-> Fin([r EXCEPT !.h = NoH]), uu |-> uu, us |-> us]
@@ -543,8 +543,8 @@ DataOut(s, t, data) ==
        THEN /\ w.fopen /\ (w.off = 0 \/ w.seeked)
             /\ w.pos + Len(data) <= Len(Content(w.p))
             /\ data = SubSeq(Content(w.p), w.pos + 1, w.pos + Len(data))
-            /\ Upd(s, [r EXCEPT !.w.pos = @ + Len(data)])
-       ELSE w.v \in ListVerbs /\ Upd(s, r)
+            /\ Upd(s, [r EXCEPT !.w.pos = @ + Len(data), !.w.dl = IF SockT > 0 THEN t + SockT ELSE 0])
+       ELSE w.v \in ListVerbs /\ Upd(s, [r EXCEPT !.w.dl = IF SockT > 0 THEN t + SockT ELSE 0])
   /\ UNCHANGED <<tree, uused, used, pool, table, srv>>
 
 KindOf(p) == IF IsDirT(tree, p) THEN "dir" ELSE "file"
@@ -555,7 +555,7 @@ Entries(p) == {[name |-> q[Len(q)], kind |-> KindOf(q), size |-> IF IsFileT(tree
 Listing(s, t, entries) ==
   /\ At(t)
   /\ \E r \in Views(ss[s], t) : LET w == r.w IN
-     IF w.v \in ListVerbs /\ w.st = "run" /\ w.sock
+     IF w.v \in ListVerbs /\ w.st = "run" /\ w.sock /\ ~TimedOut(r, t)
        THEN /\ {[name |-> e.name, kind |-> e.kind, size |-> IF e.kind = "file" THEN e.size ELSE 0] : e \in entries}
                  = Entries(w.p)
             /\ Upd(s, [r EXCEPT !.w.listed = TRUE])
